@@ -89,6 +89,7 @@ func rulesC10(r *Run) {
 	// are): a recovered scope without PreChecks must not skip it because the group is "Completed" (= C06-R4)
 	ruleGateRunsContChecks(r, "R3", smKey("PlanPreChecks"), "workflow.Plan")
 	ruleGateRunsContChecks(r, "R3", smKey("BlockPreChecks"), "workflow.Block")
+	ruleToleranceComparisonsGuarded(r, "R3") // recovery reaches the verdict the uninterrupted run would have reached (round-4 seed C10-8)
 	ruleTerminalGroupNotRerun(r, "R3", smKey("PlanPostChecks"), "PostChecks")
 	ruleTerminalGroupNotRerun(r, "R3", smKey("PlanDeferredChecks"), "DeferredChecks")
 	ruleSelfLoopMakesProgress(r, "R3")
